@@ -163,6 +163,17 @@ def schedOne (s : State) (h : Header) : State :=
              else s.pools k,
            sched := s.sched ++ [h] }
 
+def addTask (p : Pools) (h : Header) : Pools := { p with pool := h :: p.pool, queue := insertSorted h p.queue }
+
+/-- `schedOne` with the two new pool records computed once, before the closure is built (same state, see
+`schedOneFast_eq`; `schedOne` itself would recompute them at every later lookup, which is cubic on long chains) -/
+def schedOneFast (s : State) (h : Header) : State :=
+  let pb := addTask (s.pools .body) h
+  let pr := if s.cfg.fast = true then addTask (s.pools .rcpt) h else s.pools .rcpt
+  { s with head := h.hash,
+           pools := fun k => match k with | .body => pb | .rcpt => pr,
+           sched := s.sched ++ [h] }
+
 /-- the loop of Schedule; returns the new state and `len(inserts)` -/
 def scheduleLoop : List Header → Nat → State → State × Nat
   | [], _, s => (s, 0)
@@ -172,7 +183,7 @@ def scheduleLoop : List Header → Nat → State → State × Nat
     else if h ∈ (s.pools .body).pool then scheduleLoop hs from_ s
     else if h ∈ (s.pools .rcpt).pool then scheduleLoop hs from_ s
     else
-      let (s', n) := scheduleLoop hs (from_ + 1) (schedOne s h)
+      let (s', n) := scheduleLoop hs (from_ + 1) (schedOneFast s h)
       (s', n + 1)
 
 def schedule (s : State) (hs : List Header) (from_ : Nat) : State × Nat := scheduleLoop hs from_ s
